@@ -2,7 +2,11 @@
 
 package server
 
-import "context"
+import (
+	"context"
+
+	coreapi "github.com/zilliztech/milvus-cdc/core/api"
+)
 
 // verifNilIfDone returns ch unchanged unless built with the verif tag (see verif_on.go).
 func verifNilIfDone[C any](ctx context.Context, ch C, site string) C { return ch }
@@ -10,3 +14,6 @@ func verifNilIfDone[C any](ctx context.Context, ch C, site string) C { return ch
 // verifPositionOrder returns nil unless built with the verif tag: the checkpoint updates of a batch are then
 // written in map iteration order.
 func verifPositionOrder(m map[string]*UpdatePositionInfo) []string { return nil }
+
+// verifEventDiscarded is a no-op unless built with the verif tag.
+func verifEventDiscarded(ev *coreapi.ReplicateAPIEvent) {}
